@@ -21,6 +21,16 @@ UMBRELLA = '''#include "goldilocks_base_field.hpp"
 #include "ntt_goldilocks.cpp"
 #include "poseidon_goldilocks.cpp"
 '''
+def umbrella():
+    """the unity translation unit: the public headers, then every src/*.cpp the shipped build compiles (`g++ tests/tests.cpp
+    src/*.cpp`): the four units of the pinned tree in their usual order, then any unit added since (sorted), so that code moved
+    into a new source file is still analysed"""
+    hs = [h for h in HEADERS if os.path.exists(os.path.join(SRC, h))]
+    cpps = sorted(os.path.basename(f) for f in glob.glob(os.path.join(SRC, '*.cpp')))
+    units = [u for u in CPP_UNITS if u in cpps] + [u for u in cpps if u not in CPP_UNITS]
+    return ''.join('#include "%s"\n' % x for x in hs + units)
+
+
 CPP_UNITS = ['goldilocks_base_field.cpp', 'goldilocks_cubic_extension.cpp', 'ntt_goldilocks.cpp', 'poseidon_goldilocks.cpp']
 HEADERS = ['goldilocks_base_field.hpp', 'goldilocks_cubic_extension.hpp', 'ntt_goldilocks.hpp', 'poseidon_goldilocks.hpp',
            'merklehash_goldilocks.hpp']
@@ -105,7 +115,7 @@ def ir_path(config, omp=False, sroa=False):
             # configuration's compiler is reading it (checks run in parallel)
             um = os.path.join(d, base + '_umbrella.cpp')
             with open(um, 'w') as f:
-                f.write(UMBRELLA)
+                f.write(umbrella())
             cmd = ['clang++'] + base_flags(config) + ['-O0', '-Xclang', '-disable-O0-optnone', '-g', '-fno-discard-value-names',
                                                      '-femit-all-decls', '-S', '-emit-llvm', um, '-o', raw + '.tmp']
             if omp:
@@ -133,7 +143,7 @@ def ast_json(config, filt, omp=True):
             # configuration's compiler is reading it (checks run in parallel)
             um = out + '_umbrella.cpp'
             with open(um, 'w') as f:
-                f.write(UMBRELLA)
+                f.write(umbrella())
             cmd = ['clang++'] + base_flags(config) + (['-fopenmp'] if omp else []) + ['-fsyntax-only', '-Xclang', '-ast-dump=json',
                                                                                       '-Xclang', '-ast-dump-filter=' + filt, um]
             with open(out + '.tmp', 'w') as fo:
